@@ -1,7 +1,8 @@
 (* C08 model: alembic/autogenerate/render.py transcribed at the level of Python call trees, and the
    reading-back of such a tree by the Operations proxies (alembic/operations/ops.py classmethods).
    Every string leaf records how the real renderer turns the field into text: ViaRepr (the %r conversion,
-   repr(), _ident followed by %r) or ViaRawQuote (text pasted between quote characters).
+   repr(), _ident followed by %r) or ViaRawQuote (text pasted between quote characters; after the repairs of
+   the table-comment and table-prefix renderers no renderer does that any more).
    No proofs here. *)
 From Coq Require Import String Ascii.
 From AV Require Export Model.PyRepr.
@@ -273,7 +274,7 @@ Definition render_create_table (c:cfg) (t:table) : pyexpr :=
     ((id_ (t_name t) :: map (render_column c) (t_cols t) ++ somes (map (render_constraint c) (t_cons t)))
      ++ kwlist [("schema"%string, opt_i (truthy (t_schema t)));
                 ("comment"%string, opt_s (truthy_s (t_comment t)));
-                ("prefixes"%string, match t_prefixes t with [] => None | ps => Some (PList (map (PStr ViaRawQuote) ps)) end);
+                ("prefixes"%string, match t_prefixes t with [] => None | ps => Some (PList (map Sr ps)) end);
                 ("if_not_exists"%string, opt_b (t_if_not_exists t))]).
 
 Definition render_drop_table (c:cfg) (n:ident) (schema:option ident) (if_exists:option bool) : pyexpr :=
@@ -350,7 +351,7 @@ Definition render_top (c:cfg) (o:top_op) : list pystmt :=
       | [] => []
       | _ =>
         if cfg_batch c then
-          [SWith (PCall [lit "op"; lit "batch_alter_table"]   (* the prefix is hard-coded in _render_modify_table *)
+          [SWith (PCall [cfg_op c; lit "batch_alter_table"]   (* opts["alembic_module_prefix"] *)
                   ([id_ tn] ++ kwlist [("schema"%string, Some (or_none id_ s))]))
                  (map (fun x => render_tbl_op c true (fst (fst x)) (snd (fst x)) (snd x)) ops)]
         else map (fun x => SExpr (render_tbl_op c false (fst (fst x)) (snd (fst x)) (snd x))) ops
@@ -576,7 +577,7 @@ Definition eval_stmt (c:cfg) (s:pystmt) : option top_op :=
         ie <- opt_arg as_bool (kwarg "if_exists" args) ;; Some (TDropTable n s ie false)
       else r <- eval_tbl_op c false dummy_id None f args ;; Some (TOp (fst (fst r)) (snd (fst r)) (snd r))
   | SWith (PCall [p; f] args) body =>
-      if negb (str_eqb p (lit "op") && str_eqb (cfg_op c) (lit "op") && str_eqb f (lit "batch_alter_table")) then None else
+      if negb (str_eqb p (cfg_op c) && str_eqb f (lit "batch_alter_table")) then None else
       tn <- obind (nth_pos 0 args) as_ident ;; sc <- opt_arg as_ident (kwarg "schema" args) ;;
       ops <- mapM (fun e => match e with
                             | PCall [p'; f'] a => if str_eqb p' (lit "batch_op") then eval_tbl_op c true tn sc f' a else None
